@@ -3,6 +3,7 @@ package rules
 import (
 	"fmt"
 	"go/token"
+	"go/types"
 	"strings"
 
 	"golang.org/x/tools/go/ssa"
@@ -22,6 +23,7 @@ type ps8Scope struct {
 	funcs   func(fn *ssa.Function) bool                         // functions whose calls are checked
 	source  func(fn *ssa.Function, ci ssa.CallInstruction) bool // calls in the source set
 	degrade map[string]string                                   // FuncKey -> reason: function may degrade to a default
+	noEOF   bool                                                // the io.EOF idiom is NOT accepted in this scope (below the scan loops nothing may turn an error into 'fine')
 }
 
 func errValueOf(ci ssa.CallInstruction) ssa.Value {
@@ -141,6 +143,28 @@ func ps8(p *core.Prog, rep *core.Report, sc ps8Scope) {
 					case *ssa.BinOp:
 						if !core.IsNilConst(r.Y) && !core.IsNilConst(r.X) {
 							handled = true // compared with a sentinel
+							if sc.noEOF && (r.Op == token.EQL || r.Op == token.NEQ) {
+								// the edge on which the error EQUALS the sentinel is an edge where it is non-nil: a nil
+								// return dominated by it turns that error into success
+								for _, ref2 := range *r.Referrers() {
+									iff, ok := ref2.(*ssa.If)
+									if !ok {
+										continue
+									}
+									eq := iff.Block().Succs[0]
+									if r.Op == token.NEQ {
+										eq = iff.Block().Succs[1]
+									}
+									if len(eq.Preds) != 1 {
+										continue
+									}
+									for _, ret := range dominatedReturns(eq) {
+										if ei := core.ErrResultIndex(fn.Signature); ei >= 0 && core.IsNilConst(core.ReturnOperand(ret, ei)) {
+											verdict = "nil is returned at " + p.InstrPos(ret) + " on the edge where this error equals a sentinel (" + p.InstrPos(iff) + "): below the readers no error may be turned into success"
+										}
+									}
+								}
+							}
 							continue
 						}
 						// nil test: look at the non-nil side
@@ -174,7 +198,7 @@ func ps8(p *core.Prog, rep *core.Report, sc ps8Scope) {
 								ev := core.ReturnOperand(ret, core.ErrResultIndex(fn.Signature))
 								if core.IsNilConst(ev) {
 									// allowed only behind the io.EOF idiom
-									if !behindEOF(nonNil, ret.Block(), e) {
+									if sc.noEOF || !behindEOF(nonNil, ret.Block(), e) {
 										verdict = "nil is returned at " + p.InstrPos(ret) + " on the edge where this error is non-nil"
 									}
 								}
@@ -357,4 +381,25 @@ func eof2ScanEnds(p *core.Prog, rep *core.Report) {
 		core.Failf("vacuity guard: EOF2 expected >= 3 scan call sites (replay, merge, hint load), found %d", n)
 	}
 	rep.Check(len(bad) == 0, "EOF2", "scan-ends-on-eof-only", fmt.Sprintf("the %d scan loops treat only io.EOF as a normal end", n), "", strings.Join(sortedStr(bad), "; "), true)
+}
+
+// ps8Backend: below the chunk readers nothing decides that an I/O error is fine. A back-end Read that answers
+// (n, nil) for a short read lets the reader decode whatever an earlier read left in the unfilled part of its pooled
+// block buffer: the stale chunks pass their CRC and another key's value is served for a truncated file.
+func ps8Backend(p *core.Prog, rep *core.Report) {
+	impl := map[*types.Named]bool{}
+	for _, n := range p.R.Impls(p.R.ReadWriter) {
+		impl[n] = true
+	}
+	ps8(p, rep, ps8Scope{
+		name: "backend-read",
+		funcs: func(fn *ssa.Function) bool {
+			return impl[core.RecvNamed(fn)] && fn.Name() == "Read"
+		},
+		source: func(fn *ssa.Function, ci ssa.CallInstruction) bool {
+			return core.ErrResultIndex(ci.Common().Signature()) >= 0
+		},
+		degrade: map[string]string{},
+		noEOF:   true,
+	})
 }
